@@ -2,9 +2,14 @@ package main
 
 import (
 	"fmt"
+	"os"
 	"path/filepath"
+	"runtime"
 	"sort"
+	"strconv"
 	"strings"
+	"sync"
+	"sync/atomic"
 
 	"github.com/whoisnian/glb/util/fsutil"
 	"verifharness/hk"
@@ -32,6 +37,99 @@ func c17Resolve(base, p string) (res string, panicked string) {
 		}
 	}()
 	return fsutil.ResolveUrlPath(base, p), ""
+}
+
+// c17Concurrent: the function is pure, so a call made while other goroutines are inside it must return what the
+// same call returns alone. G goroutines call ResolveUrlPath in tight loops on a mix of (a) already-clean paths
+// without leading slash, (b) paths without leading slash that contain dot-dot segments, (c) the usual shapes;
+// every result is compared with the result of the sequential call made beforehand (those are ordinary judged
+// cases); a differing result is written as "VIOL concurrent <base> <path> <got> <sequential>" and also as an
+// ordinary case line, so that the Coq judge sees it.
+func c17Concurrent(e *hk.Env, one func(base, p string) string) {
+	bases := []string{"/srv/www", "/srv/www/", "rel/dir", ".", "/", "../x", "/data/../pub"}
+	clean := []string{"static/css/main.css", "static/css/main-layout-2.css", "static/app.js", "index.html", "a", "img/logo.png",
+		"assets/fonts/roboto/v20/regular-latin-ext.woff2", "a/b/c/d/e/f/g/h/i/j/k/l/m/n/o/p", "favicon.ico", "..a/b..", "x\\y/z"}
+	climb := []string{"../../etc/passwd", "../../../../../../etc/passwd", "../../../../etc/shadow", "x/../../etc/passwd", "..", "../..",
+		"static/../../secret/key", "a/./../../b", "./../.././../root/.ssh/id_rsa", "../../../../../../../../../../../../../../..", "..//..//..//tmp"}
+	usual := []string{"", "/", "/a/b", "/../x", "//a//b/", "/static/css/main.css", "/../../etc/passwd", "/a/../../b", "/.", "/..", "/static/../.."}
+	type pair struct{ base, p, want string }
+	var pairs []pair
+	for _, b := range bases {
+		for _, l := range [][]string{clean, climb, usual} {
+			for _, p := range l {
+				pairs = append(pairs, pair{b, p, one(b, p)}) // sequential reference, judged like any case
+			}
+		}
+	}
+	g := 4 * runtime.GOMAXPROCS(0)
+	if g < 16 {
+		g = 16
+	}
+	iters := 60000
+	if e.Thorough() {
+		iters = 600000
+	}
+	if v, err := strconv.Atoi(os.Getenv("C17_CONC_ITERS")); err == nil && v > 0 {
+		iters = v
+	}
+	type diff struct{ base, p, got, want string }
+	var mu sync.Mutex
+	diffs := map[diff]int{}
+	var stop atomic.Bool
+	var calls atomic.Int64
+	var wg sync.WaitGroup
+	seeds := make([]*hk.Rng, g)
+	for i := range seeds {
+		seeds[i] = e.Rng.Fork()
+	}
+	for i := 0; i < g; i++ {
+		wg.Add(1)
+		go func(id int) {
+			defer wg.Done()
+			r := seeds[id]
+			// half of the goroutines stay on one pair (steady pressure on pooled state), the others roam
+			fixed := pairs[r.Intn(len(pairs))]
+			if id%4 == 0 {
+				fixed = pairs[r.Intn(len(clean))] // clean, no leading slash, first base
+			} else if id%4 == 2 {
+				fixed = pairs[len(clean)+r.Intn(len(climb))]
+			}
+			n := int64(0)
+			for k := 0; k < iters && !stop.Load(); k++ {
+				pr := fixed
+				if id%2 == 1 {
+					pr = pairs[r.Intn(len(pairs))]
+				}
+				got, pan := c17Resolve(pr.base, pr.p)
+				n++
+				if pan != "" {
+					got = "panic: " + pan
+				}
+				if got != pr.want {
+					mu.Lock()
+					diffs[diff{pr.base, pr.p, strings.Clone(got), pr.want}]++
+					if len(diffs) >= 50 {
+						stop.Store(true)
+					}
+					mu.Unlock()
+				}
+			}
+			calls.Add(n)
+		}(i)
+	}
+	wg.Wait()
+	nd := 0
+	for d, cnt := range diffs {
+		nd += cnt
+		e.Case("VIOL", "concurrent", hk.Hxs(d.base), hk.Hxs(d.p), hk.Hxs(d.got), hk.Hxs(d.want))
+		if !strings.HasPrefix(d.got, "panic: ") {
+			e.Case("E", hk.Hxs(d.base), hk.Hxs(d.p), hk.Hxs(d.got))
+		}
+	}
+	e.Stats["concurrent_goroutines"] = g
+	e.Stats["concurrent_calls"] = calls.Load()
+	e.Stats["concurrent_pairs"] = len(pairs)
+	e.Stats["concurrent_results_differing_from_sequential"] = nd
 }
 
 func runC17(e *hk.Env) error {
@@ -140,8 +238,15 @@ func runC17(e *hk.Env) error {
 			}
 		}
 	}
+	if os.Getenv("C17_MODE") == "concurrent" { // the -race build runs only this phase
+		c17Concurrent(e, one)
+		e.Stats["cases"] = cases
+		e.Stats["go_rel_oracle_violations"] = viol
+		return nil
+	}
 	sequences()
 	e.Stats["sequence_cases_first_pass"] = seqCases
+	c17Concurrent(e, one)
 
 	// ---- long paths: k repetitions of a depth-neutral unit, then an escape suffix (limits on the number of
 	// elements, buffers, recursion depth). Tag "L": judged by the driver like "E", left out of the in-Coq sample.
